@@ -57,11 +57,15 @@ def check(repo, res, tier):
     res.rule('C04.T9', 'adopted: a finished task returns its machine to its observation\'s reservation while that '
                        'exists (C09.R4) -- otherwise the reservation entry is never dropped and the run does not end quiescent')
     borrow(repo, res, tier, c09, {'C09.R4'}, 'C04.T9')
+    from . import c02 as _c02
+    res.rule('C04.T13', 'adopted C02.P2: machines move between pools one remove + one append at a time (else the run ends with '
+                        'a machine twice in, or missing from, the available pool)')
+    borrow(repo, res, tier, _c02, {'C02.P2'}, 'C04.T13')
     from . import c08
     res.rule('C04.T11', 'adopted C08.A7: an observation is finished exactly ast + duration after it started -- finished '
                         'early, its ingest loops stop before the last deposit, it is never handed to the buffer and its '
                         'workflow never runs')
-    borrow(repo, res, tier, c08, {'C08.A7'}, 'C04.T11')
+    borrow(repo, res, tier, c08, {'C08.A7', 'C08.A12'}, 'C04.T11')
 
 
 def t1(repo, res, canon, pc, logic):
